@@ -182,6 +182,19 @@ CLAIMED["C12"] = dict(
          "equal to the renamed default definition. The composite t2eri_*/t2sq intermediates have no independent reference (only 2-4).",
     note=TB + "The reference quantities are derived by adcgen itself (wicks: C01; remove_tensor: C14); agreement with explicit determinant-space RSPT is the subject of C02. Quick tier samples symmetries/spin blocks of the larger tensors and skips t4_2 / third-order densities.")
 
+CLAIMED["C19"] = dict(
+    category="exploration", design="DESIGN.md §4 C19",
+    technique="fresh interpreters per (PYTHONHASHSEED, prior call history, tensor-name configuration); results compared across processes by the proved Lean checker checkEquiv and as texts; the registry part is carried by the C08 Lean theorems",
+    text="A fixed list of API requests is executed in fresh interpreters for a set of (hash seed, prior call history) combinations and once "
+         "with a renamed tensor configuration; every result must be accepted by checkEquiv as equal (for all models) to the reference "
+         "process' result, and the text after substitute_contracted must be identical. Repeated psi / norm_factor requests must not share "
+         "contracted indices, and norm_factor(n) must be accepted as the binomial series in the overlaps with independent summed indices "
+         "per factor. Freshness / lowest-name properties of the registry for every operation sequence are Lean theorems (C08: "
+         "Slot.inv_run, run_generic_fresh, lowestAvail_lowest). Hash-seed and history independence themselves are explored, not proved: "
+         "there is no executable model of the interpreter's hashing. Two text-level dependences on history (value equal) are recorded as "
+         "known findings.",
+    note=TB + "Exploration over 6 (quick) / 48 (thorough) process configurations and one alternative tensor-name configuration; the un-renaming of tensor names is harness glue.")
+
 PENDING = {
 }
 
